@@ -11,7 +11,10 @@ TNext == /\ l <= Len(TraceLog) /\ l' = l + 1 /\ UNCHANGED tree
                 bad == IF e.rc # 0 THEN {} ELSE
                        (IF ~BodyOneDeeper(e.lines, e.cols, e.ic, e.base) THEN {"OneLevelDeeper"} ELSE {}) \cup
                        (IF ~SameLevelSameColumn(e.lines, e.cols) THEN {"SameBlockSameColumn"} ELSE {}) \cup
-                       (IF e.cols2 # e.cols THEN {"OriginalIndentIrrelevant"} ELSE {})
+                       (IF e.cols2 # e.cols THEN {"OriginalIndentIrrelevant"} ELSE {}) \cup
+                       (* the same statements formatted as a fragment (--frag, tabs in the output): the first line's        *)
+                       (* indentation is the base, every line stands where it stands in the function body, shifted           *)
+                       (IF e.colsf # <<>> /\ \E i \in 1..Len(e.cols) : e.colsf[i] - e.fbase # e.cols[i] - e.base THEN {"FragmentAsBody"} ELSE {})
             IN bad # {} => PrintT("@@" \o ToJson([l |-> l, id |-> e.id, bad |-> bad, expected |-> Cols(e.lines, e.ic, e.base)]))
 TInit == l = 1 /\ tree = SS
 TSpec == TInit /\ [][TNext]_<<l, tree>>
